@@ -433,6 +433,10 @@ func (x *Exec) VerifyJob(fn *ssa.Function, c *FnContract, op int) (res VerifyRes
 				res.Undecided = ee.msg
 				return
 			}
+			if mf, ok := r.(mergeFail); ok {
+				res.Undecided = "values of different shapes meet at a symbolic selection: " + mf.msg
+				return
+			}
 			panic(r)
 		}
 	}()
